@@ -40,6 +40,11 @@ def obligations(tier):
     for kind in range(9):
         obs.append(Ob(f"C14.one_datum_or_reject.kind{kind}", "CH", "harness.h_lines", "decode_line", 600, {"VF_KIND": kind, "VF_SYM": 0, "VF_MAXD": 2},
                       funcs=("*.ParsedData.from_chart_line",), bounds="a line yields one datum or RegexNotMatchError"))
+    for rk in range(9):
+        obs.append(Ob(f"C14.dispatcher_runs.k{rk // 3}{rk % 3}", "CH", "harness.h_track", "dispatcher_runs", 900, {"VF_RUNK": rk, "VF_RUNMAX": 8 if tier == "quick" else 12},
+                      funcs=("chartparse.track.parse_data_from_chart_lines",),
+                      bounds="a run of 0..8 (12) lines of one kind, optionally an unparsable line, 0..2 lines of a second kind, then a line accepted by any "
+                             "subset of the three kinds: first accepting kind in the caller's order wins, whatever came before"))
     return obs
 
 
